@@ -78,12 +78,12 @@ def Img.subSlices (im : Img) (sls : List PySlice) : Except Err Img := do
 def colMin (pts : List (List Int)) (d : Nat) : Option Int := (pts.map fun p => listGetD p d 0).min?
 def colMax (pts : List (List Int)) (d : Nat) : Option Int := (pts.map fun p => listGetD p d 0).max?
 
-/-- `slice(max(0, min(voxels[:, d])), min(max(voxels[:, d]), num_voxels[d]))` per axis;
+/-- `slice(max(0, min(voxels[:, d])), max(0, min(max(voxels[:, d]), num_voxels[d])))` per axis;
 `np.min` of an empty column raises ValueError -/
 def boxSlices (shape : List Nat) (pts : List (List Int)) : Except Err (List PySlice) :=
   shape.zipIdx.mapM fun (N, d) =>
     match colMin pts d, colMax pts d with
-    | some lo, some hi => .ok (some (max 0 lo), some (min hi (N : Int)))
+    | some lo, some hi => .ok (some (max 0 lo), some (max 0 (min hi (N : Int))))
     | _, _ => .error .value
 
 /-- `Image.subregion(VoxelArray)` -/
